@@ -104,8 +104,15 @@ def build(rng: random.Random, size: str = "quick"):
             add({"fn": "iban_lookup", "text": R.make_iban(other, b)}, f"listed:{b}")
             add({"fn": "iban", "text": R.make_iban(other, b), "kw": {"validate_bban": True}}, f"listed:{b}")
     # banks listed with several records (shared per-key lists): look-ups and validations of the same key
-    multi_keys = sorted((k for k in keys if len(idx[k]) >= 3), key=lambda k: (-len(idx[k]), k))[:40]
-    for c, code in rng.sample(multi_keys, min(len(multi_keys), 6 if size == "quick" else 25)):
+    def nbics(k):
+        return len({e["bic"] for e in idx[k] if e.get("bic")})
+
+    many = sorted((k for k in keys if nbics(k) >= 2), key=lambda k: (-nbics(k), k))
+    # half of them: keys whose candidates are all branch-specific (no 8-character, no XXX form)
+    branchy = [k for k in many if all(len(e["bic"]) == 11 and not e["bic"].endswith("XXX") for e in idx[k] if e.get("bic"))]
+    nk = 6 if size == "quick" else 25
+    multi_keys = rng.sample(branchy[:60], min(len(branchy[:60]), nk // 2)) + rng.sample(many[:60], min(len(many[:60]), nk - nk // 2))
+    for c, code in multi_keys:
         t = build_iban_around(c, code, table, rng)
         if t is None:
             continue
@@ -115,6 +122,18 @@ def build(rng: random.Random, size: str = "quick"):
         add({"fn": "iban_lookup", "text": t}, g)
         add({"fn": "bban", "country": c, "value": t[4:]}, g)
         add({"fn": "iban", "text": t, "kw": {"validate_bban": True}}, g)
+    # country objects: IBAN.country / BIC.country for every code of the table that ISO 3166 does not know,
+    # plus a few it does (look-ups in third-party tables must stay look-ups)
+    iso = data.iso3166_alpha2()
+    odd = [c for c in cs if c not in iso]
+    for c in odd + rng.sample([c for c in cs if c in iso], 4) + ["ZZ"]:
+        spec_c = table.get(c)
+        t = R.make_iban(c, gen.random_bban(spec_c, rng)) if spec_c else c + "00123456"
+        g = f"country:{c}"
+        add({"fn": "bic", "text": "ABCD" + c + "22", "kw": {}}, g)
+        add({"fn": "bic_country", "text": "WXYZ" + c + "2LXXX"}, g)
+        add({"fn": "iban_country", "text": t}, g)
+        add({"fn": "bic", "text": "QRST" + c + "33XXX", "kw": {"enforce_swift_compliance": True}}, g)
     # same seed, different countries / pins / modes
     for s in range(3 if size == "quick" else 12):
         for cc in rng.sample(cs, 5) + ["", "PL", "NO"]:
@@ -139,8 +158,14 @@ def build(rng: random.Random, size: str = "quick"):
     add({"fn": "generate", "country": "ZZ", "bank": "1", "account": "1"}, "gen:ZZ")
     # direct algorithm calls: per German method, accounts from all behaviour classes
     for m in sorted(G.METHODS):
-        for a in german_classes(m, rng, 1 if size == "quick" else 2):
+        accs_m = german_classes(m, rng, 1 if size == "quick" else 2)
+        for a in accs_m:
             add({"fn": "algo", "key": f"DE:{m}", "components": [a]}, f"algo:DE:{m}")
+        # calls that fail half-way through the computation (a non-digit after some digits were consumed)
+        if accs_m:
+            a0 = accs_m[0]
+            for bad in (a0[:6] + "A" + a0[7:], a0[:9] + "x", "9" + a0[1:3] + "-" + a0[4:], a0[:3]):
+                add({"fn": "algo", "key": f"DE:{m}", "components": [bad]}, f"algo:DE:{m}")
     for cc in N.COUNTRIES:
         spec = table.get(cc)
         if not spec:
@@ -176,4 +201,7 @@ def build(rng: random.Random, size: str = "quick"):
         for code in rng.sample(codes, 2):
             for a in accs:
                 add({"fn": "iban", "text": R.make_iban("DE", code + a), "kw": {"validate_bban": True}}, f"api:DE:{m}")
+            if accs:
+                # an unvalidated BBAN of the same bank whose account breaks off the computation half-way
+                add({"fn": "bban", "country": "DE", "value": code + accs[0][:5] + "A" + accs[0][6:]}, f"api:DE:{m}")
     return pool
